@@ -496,6 +496,9 @@ func c19Explore(c *fw.Ctx, cs c19Case, bound int) {
 	if st.Deadlines > 0 {
 		c.HarnessError("C19 %s: %d executions hit the watchdog", name, st.Deadlines)
 	}
+	if st.Nondeterministic {
+		c.HarnessError("C19: replaying the default schedule gave a different execution (uncaptured nondeterminism)")
+	}
 }
 
 func c19Replay(raw json.RawMessage) (string, bool, error) {
